@@ -115,6 +115,13 @@ CHECKS = {
             "lowering, IR passes, linking and VM execution on type-correct inputs may only succeed or fail with the two defined "
             "run-time errors; everything else is a violation bucketed by signature.",
             "Trusted: stage attribution from tracebacks (vf/adapter.py); allowances derived from the program text (vf/checks/c05.analyse).", "4/C05"),
+    "C16": ("exploration",
+            "Hypothesis partitions of call-graph programs into import DAGs; differential oracle against the single-module compile, "
+            "counting loader, exhaustive add orders per subset, duplicate-definition probes",
+            "Generated multi-module programs are compiled separately, stored with pickle and linked from the root only and from every "
+            "subset in every order; results must equal the single-module program, no module may be loaded twice, the outcome may "
+            "not depend on the order, duplicate definitions must be rejected.",
+            "Trusted: the single-module compile as reference; modules use only their own globals.", "4/C16"),
 }
 
 PENDING = {}
